@@ -28,7 +28,7 @@ Definition dJob : dec job :=
   let* q := dZ in let* s := dZ in let* mr := dZ in let* pr := dZ in let* nt := dZ in let* rest := dZ in
   ret (mkJob n ts ma ps vs pl q s mr pr nt rest).
 Definition dQueue : dec queue :=
-  let* a := dZ in let* b := dZ in let* c := dZ in ret (mkQueue a b c).
+  let* a := dZ in let* b := dZ in let* c := dZ in let* t := dBool in ret (mkQueue a b c t).
 
 (* oracle answers travel as the lists of ids the Kubernetes validator rejects:
    names invalid as a pod-template name, job names / task names that make the
